@@ -1,14 +1,17 @@
 // Script interpreter for whole-object operations (C10, C08): up to three dispatcher / queue objects living in pre-filled
 // storage are copy/move constructed, assigned, swapped and destroyed, interleaved with listener / filter changes,
 // dispatches and queue operations.  Reads ObjGen.tla cover scripts, records NDJSON for TraceObj.tla.
-//   W_KIND      0 EventQueue + MixinFilter | 1 EventDispatcher + MixinFilter | 2 HeterEventQueue + MixinHeterFilter | 3 HeterEventDispatcher + MixinHeterFilter
+//   W_KIND      0 EventQueue + MixinFilter | 1 EventDispatcher + MixinFilter | 2 HeterEventQueue | 3 HeterEventDispatcher + MixinHeterFilter
+//               4 HeterCallbackList (no event key, no filters)
 //   W_THREADING 0 SingleThreading | 1 MultipleThreading | 2 GeneralThreading<SpinLock>
 //   W_FILL      byte pattern the storage holds before each construction
 // Channels: homogeneous kinds use event keys 1 and 2; heterogeneous kinds use one key and the prototypes (const PA &) and (const PB &).
 #include "common.h"
+#include "fault.h"
 #include <eventpp/eventqueue.h>
 #include <eventpp/hetereventqueue.h>
 #include <eventpp/hetereventdispatcher.h>
+#include <eventpp/hetercallbacklist.h>
 #include <eventpp/mixins/mixinfilter.h>
 #include <eventpp/mixins/mixinheterfilter.h>
 #include <new>
@@ -39,7 +42,7 @@ struct PA
 {
 	int c;
 	explicit PA(int c = 1) : c(c) { ++g_livePayload; regAdd(this); }
-	PA(const PA & o) : c(o.c) { regUse(&o); ++g_livePayload; regAdd(this); }
+	PA(const PA & o) : c(o.c) { regUse(&o); copyFaultPoint(); ++g_livePayload; regAdd(this); }
 	PA & operator = (const PA & o) { regUse(&o); regUse(this); c = o.c; return *this; }
 	~PA() { regDel(this); --g_livePayload; }
 };
@@ -47,7 +50,7 @@ struct PB
 {
 	int c; std::string big;
 	explicit PB(int c = 2) : c(c), big("a-string-long-enough-to-live-on-the-heap-0123456789") { ++g_livePayload; regAdd(this); }
-	PB(const PB & o) : c(o.c), big(o.big) { regUse(&o); ++g_livePayload; regAdd(this); }
+	PB(const PB & o) : c(o.c), big(o.big) { regUse(&o); copyFaultPoint(); ++g_livePayload; regAdd(this); }
 	PB & operator = (const PB & o) { regUse(&o); regUse(this); c = o.c; big = o.big; return *this; }
 	~PB() { regDel(this); --g_livePayload; }
 };
@@ -55,7 +58,7 @@ struct Tracked
 {
 	int id;
 	explicit Tracked(int id) : id(id) { ++g_live; regAdd(this); }
-	Tracked(const Tracked & o) : id(o.id) { regUse(&o); ++g_live; regAdd(this); }
+	Tracked(const Tracked & o) : id(o.id) { regUse(&o); copyFaultPoint(); ++g_live; regAdd(this); }
 	Tracked & operator = (const Tracked & o) { regUse(&o); regUse(this); id = o.id; return *this; }
 	~Tracked() { regDel(this); --g_live; }
 };
@@ -87,8 +90,19 @@ typedef eventpp::EventQueue<int, void (const PA &), Pol> Obj;
 typedef eventpp::EventDispatcher<int, void (const PA &), Pol> Obj;
 #elif W_KIND == 2
 typedef eventpp::HeterEventQueue<int, eventpp::HeterTuple<void (const PA &), void (const PB &)>, Pol> Obj;
-#else
+#elif W_KIND == 3
 typedef eventpp::HeterEventDispatcher<int, eventpp::HeterTuple<void (const PA &), void (const PB &)>, Pol> Obj;
+#else
+struct PolL {
+#if W_THREADING == 0
+	using Threading = eventpp::SingleThreading;
+#elif W_THREADING == 1
+	using Threading = eventpp::MultipleThreading;
+#else
+	using Threading = eventpp::GeneralThreading<eventpp::SpinLock>;
+#endif
+};
+typedef eventpp::HeterCallbackList<eventpp::HeterTuple<void (const PA &), void (const PB &)>, PolL> Obj;
 #endif
 
 enum { MaxO = 3 };
@@ -102,7 +116,9 @@ static void * fresh(int o) { std::memset(g_storage[o], W_FILL, sizeof(g_storage[
 static void append(int o, int c)
 {
 	int id = ++g_ncb;
-#if HETER
+#if W_KIND == 4
+	if(c == 1) O[o]->append(CbA(id)); else O[o]->append(CbB(id));
+#elif HETER
 	if(c == 1) O[o]->appendListener(1, CbA(id)); else O[o]->appendListener(1, CbB(id));
 #else
 	O[o]->appendListener(c, CbA(id));
@@ -112,7 +128,12 @@ static void append(int o, int c)
 static void removeFirst(int o, int c)
 {
 	bool found = false, r = false;
-#if HETER
+#if W_KIND == 4
+	Obj::Handle h;
+	if(c == 1) O[o]->forEachIf<void (const PA &)>([&](const Obj::Handle & hh, const std::function<void (const PA &)> &) -> bool { h = hh; found = true; return false; });
+	else O[o]->forEachIf<void (const PB &)>([&](const Obj::Handle & hh, const std::function<void (const PB &)> &) -> bool { h = hh; found = true; return false; });
+	if(found) r = O[o]->remove(h);
+#elif HETER
 	Obj::Handle h;
 	if(c == 1) O[o]->forEachIf<void (const PA &)>(1, [&](const Obj::Handle & hh, const std::function<void (const PA &)> &) -> bool { h = hh; found = true; return false; });
 	else O[o]->forEachIf<void (const PB &)>(1, [&](const Obj::Handle & hh, const std::function<void (const PB &)> &) -> bool { h = hh; found = true; return false; });
@@ -128,7 +149,9 @@ static void dispatch(int o, int c)
 {
 	evx("db", o, c, 0, 0);
 	g_curObj = o;
-#if HETER
+#if W_KIND == 4
+	if(c == 1) { const PA p(1); (*O[o])(p); } else { const PB p(2); (*O[o])(p); }
+#elif HETER
 	if(c == 1) { const PA p(1); O[o]->dispatch(1, p); } else { const PB p(2); O[o]->dispatch(1, p); }
 #else
 	{ PA p(c); O[o]->dispatch(c, p); }
@@ -162,7 +185,7 @@ static void step(const Op & op)
 	const int a = op.a, b = op.b;
 	if(k == "al") append(a, b);
 	else if(k == "rl") removeFirst(a, b);
-#if W_KIND != 2
+#if W_KIND != 2 && W_KIND != 4
 	else if(k == "af") { int id = ++g_nflt; O[a]->appendFilter(FlA(id)); evx("af", a, 0, 0, id); }
 #endif
 	else if(k == "dp") dispatch(a, b);
@@ -209,7 +232,7 @@ static void epilogue()
 		for(int p = 1; p <= MaxO; ++p) if(O[p]) for(int c = 1; c <= 2; ++c) dispatch(p, c);
 	}
 	for(int o = 1; o <= MaxO; ++o) if(O[o]) { O[o]->~Obj(); O[o] = 0; evx("de2", o, 0, 0, 0); }
-	evx("rs", 0, 0, 0, 0);
+	std::fprintf(g_out, "{\"e\":\"rs\",\"o\":0,\"a\":0,\"b\":0,\"r\":0,\"lv\":%ld,\"pv\":%ld,\"n\":%ld}\n", g_live, g_livePayload, g_script);
 }
 
 int main(int argc, char ** argv)
@@ -222,9 +245,40 @@ int main(int argc, char ** argv)
 	std::set_terminate(onTerminate);
 	std::string line;
 	long nontrivial = 0;
+	const bool faultMode = argc > 2 && std::string(argv[2]) == "--fault";
+	const int faultKinds = argc > 3 ? std::atoi(argv[3]) : 3;
+	long faultRuns = 0, faultsFired = 0;
 	while(std::getline(std::cin, line)) {
 		if(! parseScript(line, script)) continue;
 		armWatchdog(20);
+		if(faultMode) {
+			for(long k = 1; k < 64; ++k) {
+				for(int o = 1; o <= MaxO; ++o) O[o] = 0;
+				O[1] = new (fresh(1)) Obj();
+				g_ncb = g_nflt = 0;
+				for(size_t i = 0; i + 1 < script.size(); ++i) step(script[i]);
+				const Op & target = script.back();
+				bool threw = false;
+				armFault(k, faultKinds);
+				try { step(target); }
+				catch(const std::bad_alloc &) { threw = true; }
+				catch(const Fault &) { threw = true; }
+				const bool fired = g_faultFired;
+				disarmFault();
+				if(threw && target.k == "ca" && W_KIND != 4) {
+					// a failed copy assignment of a dispatcher / queue leaves the destination in some valid state: it is not observed, only destroyed
+					evx("xa", target.a, target.b, 0, 0);
+					O[target.b]->~Obj(); O[target.b] = 0; evx("de2", target.b, 0, 0, 0);
+				}
+				else if(threw) evx("xf", 0, (int)k, 0, 0);
+				else if(fired) evx("xs", 0, (int)k, 0, 0);
+				epilogue();
+				++faultRuns; if(fired) ++faultsFired;
+				if(! fired) break;
+			}
+			++g_script;
+			continue;
+		}
 		for(int o = 1; o <= MaxO; ++o) O[o] = 0;
 		O[1] = new (fresh(1)) Obj();
 		g_ncb = g_nflt = 0;
@@ -236,6 +290,6 @@ int main(int argc, char ** argv)
 	}
 	alarm(0);
 	std::fclose(g_out);
-	std::fprintf(stderr, "STATS {\"scripts\":%ld,\"nontrivial\":%ld}\n", g_script, nontrivial);
+	std::fprintf(stderr, "STATS {\"scripts\":%ld,\"nontrivial\":%ld,\"fault_runs\":%ld,\"faults_fired\":%ld}\n", g_script, nontrivial, faultRuns, faultsFired);
 	return 0;
 }
